@@ -168,6 +168,8 @@ def run_stage(pid, flavour, binary, seconds, tier, seed, nworkers, extra, known_
             agg[k] = agg.get(k, 0) + s.get(k, 0)
         for k in ("faults", "counts", "strategies", "probes"):
             merge_maps(agg.setdefault(k, {}), s.get(k))
+        if s.get("slowest_run_s", 0) > agg.get("slowest_run_s", 0):
+            agg["slowest_run_s"] = s.get("slowest_run_s", 0); agg["slowest_run"] = "%s/%s run %s" % (flavour, binary, s.get("slowest_run"))
         for smp in s.get("samples", []):
             if len(agg.setdefault("samples", [])) < 12:
                 agg["samples"].append(smp)
@@ -384,6 +386,7 @@ def main():
         "counters": agg.get("counts", {}),
         "known_finding_hits": known_hits,
         "worker_restarts": agg.get("restarts", 0),
+        "slowest_run_s": round(agg.get("slowest_run_s", 0), 3), "slowest_run": agg.get("slowest_run", ""),
         "stages_wall_s": agg.get("stage_wall", {}),
         "build_s": round(build_s, 1),
         "real_vs_stub": REAL_VS_STUB,
@@ -411,6 +414,7 @@ COMMON_ASSUMPTIONS = [
 ]
 ASSUMPTIONS = {}
 RULES = {
+    "C02": "case = (SPD M-matrix from grid1d/2d/3d or random graph, n 8..300, coarsening x relaxation through the run-time interface, ncycle 1|2, npre=npost 1..3, pre_cycles 1|2, coarse_enough, max_levels, direct_coarse, nt, schedule); B is extracted by n applications to unit vectors in shuffled order interleaved with applications to random / 1e200 / zero / NaN / Inf vectors, then every column once more; oracles: both extractions bitwise equal, linearity on random pairs, B(2^k A) = 2^-k B(A) bitwise (not ILUT), and for symmetric smoothers B=B^T, lambda_min(B)>0, rho(I-BA)<1 by Eigen; non-trivial = >=2 levels and n>=8; distinct by hash(matrix, configuration, application order seed)",
     "C06": "case = (smoother in damped_jacobi|gauss_seidel|spai0|spai1|chebyshev|ilu0|iluk|ilup|ilut with drawn parameters, matrix: M-matrix / convection-diffusion / structurally non-symmetric / disconnected / positive off-diagonal family or tridiagonal / arrow, rows sorted or diagonal-first, scalar or 2x2 non-commuting block values, nt 1..32 (>=4 takes the level-scheduled paths), schedule); each case runs under two schedules; oracles: parallel level-scheduled solve == serial (bitwise for Gauss-Seidel, rounding for ILU), schedule independence, exact solution is a fixed point, closed formulas (Jacobi, Gauss-Seidel forward/backward, SPAI-0), (LU)_ij = a_ij on the pattern of A via extracted M (n<=40, Eigen), exact inverse on tridiagonal/arrow and for ILU(k>n), SPAI-1 normal equations and pattern, Chebyshev sweep affine about the solution; non-trivial = n>=3; distinct by hash(matrix, smoother, parameters, nt)",
     "C07": "case = (value type float|double|long double|complex|2x2 block or backend block_crs|builtin_hybrid|Eigen, shape incl. 0 rows, rectangular, sizes not divisible by the block size, coefficients in {0,1,-1,2,-3}, output poisoned with NaN/+Inf/-Inf wherever its coefficient is zero, nt 1..32, schedule); primitives spmv, residual, axpby, axpbypcz, vmul, lin_comb, copy, clear, inner_product (conjugate-linear in the second argument), scalar vectors in place of block vectors; integer-valued data so that the formula is exact in every type and equality is exact; non-trivial = n>=1; distinct by hash(seeds, type, shape, nt, coefficients)",
     "C08": "case = (kernel in transpose|product|sum|scale+sort_rows|diagonal|pointwise_matrix|copy/convert constructors|gershgorin|power method|complex transpose+product, shapes incl. 0 rows / empty rows / rectangular, integer-valued entries so that the dense model is exact, sorted or unsorted rows where permitted, nt 1..32 (<=16 marker-based, >=17 row-merge SpGEMM; every static chunking), schedule strategy); oracle: dense exact model, well-formed CRS, no duplicates for sorted inputs, Gershgorin >= rho(A) and power estimate <= sigma_max via Eigen (n<=60); non-trivial = >=2 rows; distinct by hash(matrix seed, shapes, kernel, nt, flags)",
